@@ -190,3 +190,8 @@ package rep
 //@   before call:SetPrivate#1 assert p.p == pp && p.s == s
 //@
 // ---- end generated AddPipe contracts ----
+// ---- generated Info contracts (tools/gen_info_contracts.py) ----
+//@ func (*socket).Info
+//@   ensures result.Self == 49 && result.Peer == 48 && result.SelfName == "rep" && result.PeerName == "req"
+//@
+// ---- end generated Info contracts ----
